@@ -470,17 +470,17 @@ where
     /// event exists in the future event set.
     #[allow(clippy::should_implement_trait)]
     fn dispatch_event(&mut self) -> bool {
-        if self.future_event_set.is_empty() {
+        // Only look at the next event: if the limit applies to it, the future
+        // event set (event order and lower time bound) must stay untouched.
+        let Some(time) = self.future_event_set.peek_time() else {
+            return true;
+        };
+
+        if self.limit.applies(self.itr + 1, time) {
             return true;
         }
 
         let (event, time) = self.future_event_set.fetch_next();
-
-        if self.limit.applies(self.itr + 1, time) {
-            self.future_event_set.add(time, event);
-            return true;
-        }
-
         self.itr += 1;
 
         // Let this be the only position where SimTime is changed
